@@ -290,6 +290,18 @@ def run(ctx):
                     chains.append((t_, [xs[0]] if (L + pw) % 2 else []))
     if quick:
         chains = rng.sample(chains, 16)
+    # powers of a single Fock element with the FIRST or the SECOND index as
+    # target (the surviving index then differs)
+    for sp_ in "ov":
+        pool_ = G.pool(sp_, 4)
+        for pw in (2, 3):
+            for tgt in (0, 1):
+                for swap in (False, True):
+                    a_, b_ = (pool_[1], pool_[0]) if swap else \
+                        (pool_[0], pool_[1])
+                    t_ = AntiSymmetricTensor("f", (a_,), (b_,), 1) ** pw * \
+                        NonSymmetricTensor("X", (pool_[1 - tgt],))
+                    chains.append((t_, [pool_[tgt]]))
     for k in range(n + len(chains)):
         occ, virt = G.pool("o", 6), G.pool("v", 6)
         ntg = rng.choice([(1, 1), (0, 0), (2, 0), (1, 0)])
